@@ -7,6 +7,7 @@ package smtp
 
 import (
 	"bufio"
+	"bytes"
 	"io"
 	"net/textproto"
 )
@@ -90,3 +91,37 @@ func VerifNewLineLimitReader(r io.Reader, limit int) io.Reader {
 
 // VerifErrThreshold is the errThreshold constant.
 const VerifErrThreshold = errThreshold
+
+type verifRWC struct {
+	io.Reader
+	io.Writer
+}
+
+func (verifRWC) Close() error { return nil }
+
+// VerifWriteResponse runs Conn.writeResponse on a connection whose output is
+// captured, and returns the octets written.
+func VerifWriteResponse(code int, enhCode EnhancedCode, text ...string) []byte {
+	var buf bytes.Buffer
+	c := &Conn{server: &Server{}, text: textproto.NewConn(verifRWC{bytes.NewReader(nil), &buf})}
+	c.writeResponse(code, enhCode, text...)
+	return buf.Bytes()
+}
+
+// VerifWriteError runs Conn.writeError the same way.
+func VerifWriteError(code int, enhCode EnhancedCode, err error) []byte {
+	var buf bytes.Buffer
+	c := &Conn{server: &Server{}, text: textproto.NewConn(verifRWC{bytes.NewReader(nil), &buf})}
+	c.writeError(code, enhCode, err)
+	return buf.Bytes()
+}
+
+// VerifReadResponse runs Client.readResponse on the given server output and
+// also returns the octets left unread in the client's buffered reader.
+func VerifReadResponse(wire []byte, expectCode int) (int, string, error, []byte) {
+	c := &Client{}
+	c.text = textproto.NewConn(verifRWC{bytes.NewReader(wire), io.Discard})
+	code, msg, err := c.readResponse(expectCode)
+	rest, _ := io.ReadAll(c.text.R)
+	return code, msg, err, rest
+}
